@@ -224,7 +224,9 @@ u_s = st.one_of(st.integers(0, 300), st.integers(0, 2 ** 16 + 5), st.integers(0,
 def nums_strategy(tier):
     return st.fixed_dictionaries({
         "unsigned": st.lists(u_s, max_size=60),
-        "signed": st.lists(st.one_of(st.integers(-300, 300), st.integers(-2 ** 40, 2 ** 40)), max_size=30),
+        "signed": st.lists(st.one_of(st.integers(-300, 300), st.integers(-2 ** 40, 2 ** 40),
+                                     # (Python ints are unbounded and so is the encoding: beyond 64 bits too)
+                                     st.integers(-2 ** 70, 2 ** 70), st.sampled_from([2 ** 63, -2 ** 63, -2 ** 63 - 1, 2 ** 64, -2 ** 64])), max_size=30),
         "small28": st.lists(st.one_of(st.integers(0, 3), st.integers(0, 2 ** 28 - 1)), max_size=80),
         "u32": st.lists(st.one_of(st.integers(0, 300), st.integers(0, 2 ** 32 - 1),
                                   st.sampled_from([255, 256, 65535, 65536, 2 ** 24 - 1, 2 ** 24])), max_size=40),
